@@ -15,13 +15,25 @@
 (*   dict2pid_add_word (dict2pid.c) fill, if still empty, the word-initial *)
 (*        table of (first, second phone), the word-final table of (last,   *)
 (*        second-last phone), or the single-phone table of the only phone. *)
+(*        A table is filled, for every neighbouring phone c, with the      *)
+(*        model-definition triphone  first(c, second)  resp.               *)
+(*        last(second-last, c); once filled it is never looked at again,   *)
+(*        every later word with the same phone pair reads it.              *)
+(*   The phone string is cut into names by the loop transcribed in         *)
+(*   PhoneParse.tla (refines DictAbs!PhoneTokens); here a pronunciation is *)
+(*   the resulting sequence of names.                                      *)
 (*                                                                         *)
 (* word[i]  slot i of d->word (0 .. max_words-1), slots >= n_word hold     *)
 (*          whatever was written there last (that is the point: a failed   *)
 (*          call writes into slot n_word before it decides to fail);       *)
 (* ht       the hash table as a map canonical spelling -> id (the table    *)
 (*          itself is property C20);                                       *)
-(* ldiph, rdiph, single   which lazily filled context tables exist;        *)
+(* ldiph, rdiph   the lazily filled context tables, as sets of              *)
+(*          <<key, src>>: key = the phone pair that indexes the table      *)
+(*          (<<first, second>> resp. <<last, second-last>>), src = the     *)
+(*          <<base, neighbour-inside-the-word>> pair whose triphones were   *)
+(*          written into it (correct iff src = key);                       *)
+(* single   the phones whose single-phone-word table exists;               *)
 (* srch     the active search: whether one exists and the dictionary size  *)
 (*          it was (re)initialised for.                                    *)
 (*                                                                         *)
@@ -35,6 +47,10 @@
 (*                  dict2pid_add_word then reads its first phone;          *)
 (*   "PronBuf"      the id buffer has strlen(phones) bytes, too small when *)
 (*                  every phone name is one letter (decoder.c:814).        *)
+(* One more switch is NOT what the code does; it is a negative control     *)
+(* showing that D2pComplete looks at what the tables hold:                 *)
+(*   "RctxSecond"   the word-final table is filled with the triphones      *)
+(*                  last(SECOND phone, c) instead of last(second-last, c). *)
 (***************************************************************************)
 EXTENDS Integers, Sequences, FiniteSets, TLC
 
@@ -106,9 +122,15 @@ LPair(p) == <<p[1], p[2]>>
 RPair(p) == <<p[Len(p)], p[Len(p) - 1]>>
 LoadedProns == {St0.word[i].pron : i \in 0..(St0.n_word - 1)}
 
+HasKey(tab, k) == \E e \in tab : e[1] = k
+\* the lazy fill of dict2pid_add_word for pronunciation p (Len(p) >= 2)
+LFill(tab, p) == IF HasKey(tab, LPair(p)) THEN tab ELSE tab \cup {<<LPair(p), LPair(p)>>}
+RFill(tab, p) == IF HasKey(tab, RPair(p)) THEN tab
+                 ELSE tab \cup {<<RPair(p), IF "RctxSecond" \in Deviations THEN <<p[Len(p)], p[2]>> ELSE RPair(p)>>}
+
 Init == /\ word = St0.word /\ n_word = St0.n_word /\ max_words = St0.max_words /\ ht = St0.ht
-        /\ ldiph = {LPair(p) : p \in {q \in LoadedProns : Len(q) >= 2}}
-        /\ rdiph = {RPair(p) : p \in {q \in LoadedProns : Len(q) >= 2}}
+        /\ ldiph = {<<LPair(p), LPair(p)>> : p \in {q \in LoadedProns : Len(q) >= 2}}     \* dict2pid_build
+        /\ rdiph = {<<RPair(p), RPair(p)>> : p \in {q \in LoadedProns : Len(q) >= 2}}
         /\ single = {p[1] : p \in {q \in LoadedProns : Len(q) = 1}}
         /\ srch = [active |-> FALSE, n |-> 0]
         /\ crashed = FALSE
@@ -152,8 +174,8 @@ AddWord(s, p, u) ==
                  /\ UNCHANGED <<ldiph, rdiph, single, srch, crashed>>
             ELSE IF p = <<>> THEN Crash(s, p, u)                   \* dict2pid_add_word: ciphone[0] of NULL
             ELSE /\ word' = r.st.word /\ n_word' = r.st.n_word /\ max_words' = r.st.max_words /\ ht' = r.st.ht
-                 /\ ldiph' = IF Len(p) >= 2 THEN ldiph \cup {LPair(p)} ELSE ldiph
-                 /\ rdiph' = IF Len(p) >= 2 THEN rdiph \cup {RPair(p)} ELSE rdiph
+                 /\ ldiph' = IF Len(p) >= 2 THEN LFill(ldiph, p) ELSE ldiph
+                 /\ rdiph' = IF Len(p) >= 2 THEN RFill(rdiph, p) ELSE rdiph
                  /\ single' = IF Len(p) = 1 THEN single \cup {p[1]} ELSE single
                  /\ srch' = IF srch.active /\ u THEN [srch EXCEPT !.n = r.st.n_word] ELSE srch
                  /\ Report(s, p, u, r.ret)
@@ -166,10 +188,16 @@ Walk(i, fuel) == IF i = BAD \/ fuel = 0 THEN <<>>
                  ELSE <<i>> \o Walk(word[i].alt, fuel - 1)
 ChainFrom(b) == Walk(word[b].alt, max_words + 1)
 
+\* the tables a search over word i reads exist ...
+TablesExist(i) == LET p == word[i].pron IN
+                  /\ Len(p) >= 1
+                  /\ Len(p) >= 2 => HasKey(ldiph, LPair(p)) /\ HasKey(rdiph, RPair(p))
+                  /\ Len(p) = 1 => p[1] \in single
+\* ... and hold the triphones of word i's own pronunciation, nothing else (Layer A: DictAbs!Realised)
 TablesFor(i) == LET p == word[i].pron IN
-                /\ Len(p) >= 1
-                /\ Len(p) >= 2 => LPair(p) \in ldiph /\ RPair(p) \in rdiph
-                /\ Len(p) = 1 => p[1] \in single
+                /\ TablesExist(i)
+                /\ Len(p) >= 2 => /\ \A e \in ldiph : e[1] = LPair(p) => e[2] = LPair(p)
+                                  /\ \A e \in rdiph : e[1] = RPair(p) => e[2] = RPair(p)
 
 \* decoder_set_jsgf_string / decoder_set_align_text naming the present word s: a new search is built over the
 \* word and the alternates of it that the links give; building it reads the context tables of each of them.
@@ -179,7 +207,7 @@ SetGrammar(s) ==
     /\ LET w == ht[Canon(s)]
            ch == ChainFrom(w)
            used == {w} \cup {ch[i] : i \in DOMAIN ch}
-       IN /\ crashed' = ~(\A i \in used : i \in 0..(n_word - 1) /\ word[i].word # NIL /\ TablesFor(i))
+       IN /\ crashed' = ~(\A i \in used : i \in 0..(n_word - 1) /\ word[i].word # NIL /\ TablesExist(i))
           /\ srch' = [active |-> TRUE, n |-> n_word]
           /\ last' = [op |-> "use", s |-> s, p |-> <<>>, u |-> FALSE, ret |-> 0]
           /\ UNCHANGED <<word, n_word, max_words, ht, ldiph, rdiph, single, lastAdd>>
@@ -203,7 +231,7 @@ HtExact == /\ \A i \in Live : word[i].word # NIL /\ Canon(word[i].word) \in DOMA
 \* walking the links from a base word visits exactly its alternates, each once, and only live words
 ChainExact == \A i \in Live : /\ word[i].base \in Live
                               /\ A!ChainOK(A!AltsOf(Proj, word[i].base), ChainFrom(word[i].base))
-\* every live word has the context tables a search needs
+\* every live word has the context tables a search needs, filled from its own pronunciation
 D2pComplete == \A i \in Live : TablesFor(i)
 NoCrash == ~crashed
 \* an accepted addition with update set leaves the active search initialised for the grown dictionary
